@@ -181,7 +181,7 @@ def run(tier, seed):
         "states": states,
         "transitions": transitions,
         "exhaustive": True,
-        "tlc_instance": "MC_Env: %d schemas x 3 environment profiles, MaxDepth %d" % (1024 if big else 216, 3 if tier == "quick" else 4),
+        "tlc_instance": "MC_Env: %d schemas x 3 environment profiles, MaxDepth %d" % (1024 if big else 192, 3 if tier == "quick" else 4),
         "traces_validated_against_impl": cases,
         "spec_to_code_by_op": by_op,
         "evaluations": cases,
